@@ -260,6 +260,11 @@ where
                     _ => last_task.insert(CabiTask::new(task)),
                 };
                 last_task.registered = Some(waitable);
+            } else if let Some(prev) = last_task.take() {
+                // Moving from a cloned (v2) task to a v1 task, which can't be
+                // cloned: leave the previous task for good. Dropping the
+                // clone unregisters this waitable from it if necessary.
+                drop(prev);
             }
 
             let prev = ((*task).waitable_register)((*task).ptr, waitable, cabi_wake, ptr.cast());
